@@ -23,8 +23,11 @@ def main():
             common.ensure_build()
         common.import_repo()
         os.environ['PYIGA_VERIF'] = '1'
-        mod = importlib.import_module('harness.drivers.' + prop.lower())
         ctx = common.Ctx(prop, a.tier, seed)
+        # compiled forms of this run go to a private cache (never ~/.cache/pyiga); must be set before pyiga.compile is imported
+        os.environ['XDG_CACHE_HOME'] = str(ctx.scratch / 'xdg_cache')
+        (ctx.scratch / 'xdg_cache').mkdir(exist_ok=True)
+        mod = importlib.import_module('harness.drivers.' + prop.lower())
         if a.replay:
             ctx.replay = json.load(open(a.replay))
             print('[replay] re-running the check; recorded violation was:', ctx.replay.get('signature'))
